@@ -30,6 +30,9 @@
      FixL1None   subscribeEvents (v9, v10) reads the L1 head with bcReader.L1Head() and turns
                  db.ErrKeyNotFound into an internal error: on a node that has no L1 head (yet)
                  every subscribeEvents request fails.
+     FixL1Order  Blockchain.SetL1Head sends the L1-head event before it writes the database and the
+                 status subscription answers the event by re-reading the L1 head from the database:
+                 handled in between, the transition to ACCEPTED_ON_L1 is never reported (L1Reported).
    and what it does by design of the lossy feeds (no switch; the strong properties hold only under
    the three environment assumptions NoLag, QuietSub, ReorgPrio; each is a CONSTANT, each one
    switched off alone makes TLC exhibit the failure, each failure is reproduced on the real code):
@@ -76,7 +79,7 @@ CONSTANTS
   ReorgPrio,     \* ASSUMPTION switch: a reorg notice is handled before any head sent after it (the select has no such priority)
   TeeStage,      \* TRUE: the Tee goroutine is a step of its own (it can lose); FALSE: forwards at once
   Window,        \* TRUE: the environment may act between the height read and the registration
-  FixL1None
+  FixL1None, FixL1Order
 
 Subs  == 1..NSubs
 Conns == 1..NConn
@@ -87,7 +90,8 @@ VARIABLES
   chain,     \* sequence of tags: chain[n+1] is the block at height n
   blk,       \* [Tags -> [h, p, txs]]: height, parent tag (0 for genesis), transactions; h = -1: unused
   nTag, nTx, nRev, nL1, nPc, nGw, nRecv, nTick,
-  l1,        \* L1 head number, -1: none
+  l1,        \* L1 head number in the DATABASE, -1: none
+  l1pend,    \* Blockchain.SetL1Head between its feed send and its database write (-1: none)
   pc,        \* the pre-confirmed block the poller last applied: [num, rid, txs]
   gw,        \* [Txs -> 0 (unknown) | 1 (RECEIVED) | 2 (CANDIDATE)]: what the gateway says
   orph,      \* transactions of the block reverted last (may be included again)
@@ -101,8 +105,8 @@ VARIABLES
   req,       \* [Conns -> 0 | s]: an Unsubscribe(s) waiting for the goroutine
   act, res
 
-vars == <<chain, blk, nTag, nTx, nRev, nL1, nPc, nGw, nRecv, nTick, l1, pc, gw, orph, reorg, notify, tee, slot, sub, got, open, req, act, res>>
-view == <<chain, blk, nTag, nTx, nRev, nL1, nPc, nGw, nRecv, nTick, l1, pc, gw, orph, reorg, notify, tee, slot, sub, got, open, req>>
+vars == <<chain, blk, nTag, nTx, nRev, nL1, nPc, nGw, nRecv, nTick, l1, l1pend, pc, gw, orph, reorg, notify, tee, slot, sub, got, open, req, act, res>>
+view == <<chain, blk, nTag, nTx, nRev, nL1, nPc, nGw, nRecv, nTick, l1, l1pend, pc, gw, orph, reorg, notify, tee, slot, sub, got, open, req>>
 
 -----------------------------------------------------------------------------
 Fr(k, a, b, c, d) == [k |-> k, a |-> a, b |-> b, c |-> c, d |-> d]
@@ -209,7 +213,7 @@ Init ==
   /\ chain = [i \in 1..InitLen |-> i]
   /\ blk = [t \in Tags |-> IF t <= InitLen THEN [h |-> t - 1, p |-> t - 1, txs |-> <<>>] ELSE NoBlk]
   /\ nTag = InitLen /\ nTx = 0 /\ nRev = 0 /\ nL1 = 0 /\ nPc = 0 /\ nGw = 0 /\ nRecv = 0 /\ nTick = 0
-  /\ l1 = StartAtL1 /\ pc = NoP /\ gw = [t \in Txs |-> 0] /\ orph = <<>>
+  /\ l1 = StartAtL1 /\ l1pend = -1 /\ pc = NoP /\ gw = [t \in Txs |-> 0] /\ orph = <<>>
   /\ reorg = NoR /\ notify = <<>>
   /\ tee = [h |-> 0, r |-> NoR, p |-> NoP, l |-> -1]
   /\ slot = [s \in Subs |-> NoSlots]
@@ -224,7 +228,7 @@ Clean(sl, sb) == [s \in Subs |-> IF sb[s].st = "run" THEN sl[s] ELSE NoSlots]
 (* nothing is in flight anywhere *)
 TeeEmpty == tee = [h |-> 0, r |-> NoR, p |-> NoP, l |-> -1]
 CaughtUp ==
-  /\ notify = <<>> /\ TeeEmpty
+  /\ notify = <<>> /\ TeeEmpty /\ l1pend = -1
   /\ \A s \in Subs : /\ sub[s].st \in {"free", "run", "done"}
                      /\ Running(s) => (sub[s].mode = "tick" \/ (Idle(s) /\ NReady(s) = 0))
 EnvOK == ~NoLag \/ CaughtUp
@@ -239,7 +243,7 @@ InWindow == \E s \in Subs : sub[s].st = "resolved"
 Free == ~InWindow
 WinEnv(kinds) == InWindow /\ Window /\ ~QuietSub /\ \A s \in Subs : sub[s].st = "resolved" => sub[s].kind \in kinds
 
-UNCH_ENV == UNCHANGED <<chain, blk, nTag, nTx, nRev, nL1, nPc, nGw, nRecv, nTick, l1, pc, gw, orph, reorg, notify>>
+UNCH_ENV == UNCHANGED <<chain, blk, nTag, nTx, nRev, nL1, nPc, nGw, nRecv, nTick, l1, l1pend, pc, gw, orph, reorg, notify>>
 UNCH_CHAIN == UNCHANGED <<chain, blk, nTag, nRev, orph, reorg>>
 
 -----------------------------------------------------------------------------
@@ -264,7 +268,7 @@ Store(content) ==
         /\ reorg' = NoR
         /\ act' = [name |-> "Store", tag |-> t, h |-> Len(chain), txs |-> txs]
   /\ res' = [kind |-> "ok"]
-  /\ UNCHANGED <<nRev, nL1, nPc, nGw, nRecv, nTick, l1, pc, gw, tee, slot, sub, got, open, req>>
+  /\ UNCHANGED <<nRev, nL1, nPc, nGw, nRecv, nTick, l1, l1pend, pc, gw, tee, slot, sub, got, open, req>>
 
 Revert ==
   /\ Free \/ WinEnv({"heads"})
@@ -275,7 +279,7 @@ Revert ==
      /\ orph' = blk[t].txs
      /\ act' = [name |-> "Revert", tag |-> t]
   /\ nRev' = nRev + 1 /\ res' = [kind |-> "ok"]
-  /\ UNCHANGED <<blk, nTag, nTx, nL1, nPc, nGw, nRecv, nTick, l1, pc, gw, notify, tee, slot, sub, got, open, req>>
+  /\ UNCHANGED <<blk, nTag, nTx, nL1, nPc, nGw, nRecv, nTick, l1, l1pend, pc, gw, notify, tee, slot, sub, got, open, req>>
 
 (* Feed.Send into the handler's Tee subscription (plain: dropped when its slot is full); with
    TeeStage = FALSE the Tee goroutine forwards at once: every listening subscription's keep-last
@@ -303,7 +307,7 @@ SyncSend ==
      /\ IF m.f = "h" THEN SendOn("h", m.h) ELSE SendOn("r", m.r)
      /\ act' = [name |-> "SyncSend", f |-> m.f]
   /\ notify' = Tail(notify) /\ res' = [kind |-> "ok"]
-  /\ UNCHANGED <<chain, blk, nTag, nTx, nRev, nL1, nPc, nGw, nRecv, nTick, l1, pc, gw, orph, reorg, sub, got, open, req>>
+  /\ UNCHANGED <<chain, blk, nTag, nTx, nRev, nL1, nPc, nGw, nRecv, nTick, l1, l1pend, pc, gw, orph, reorg, sub, got, open, req>>
 
 TeeForward(f) ==
   /\ TeeStage /\ TeeVal(f) # TeeNone(f)
@@ -311,11 +315,21 @@ TeeForward(f) ==
   /\ act' = [name |-> "TeeForward", f |-> f] /\ res' = [kind |-> "ok"]
   /\ UNCH_ENV /\ UNCHANGED <<sub, got, open, req>>
 
+(* Blockchain.SetL1Head: the event goes on the feed FIRST, the database is written SECOND (L1Write):
+   a subscriber that handles the event in between reads the OLD L1 head.  FixL1Order = TRUE: the
+   database is written before the event is sent. *)
 SetL1(n) ==
-  /\ Free /\ EnvOK /\ nL1 < MaxL1 /\ n > l1
-  /\ l1' = n /\ nL1' = nL1 + 1 /\ SendOn("l", n)
+  /\ Free /\ EnvOK /\ nL1 < MaxL1 /\ n > l1 /\ l1pend = -1
+  /\ nL1' = nL1 + 1 /\ SendOn("l", n)
+  /\ IF FixL1Order THEN l1' = n /\ l1pend' = -1 ELSE l1' = l1 /\ l1pend' = n
   /\ act' = [name |-> "SetL1", n |-> n] /\ res' = [kind |-> "ok"]
   /\ UNCHANGED <<chain, blk, nTag, nTx, nRev, nPc, nGw, nRecv, nTick, pc, gw, orph, reorg, notify, sub, got, open, req>>
+
+L1Write ==
+  /\ l1pend # -1
+  /\ l1' = l1pend /\ l1pend' = -1
+  /\ act' = [name |-> "L1Write"] /\ res' = [kind |-> "ok"]
+  /\ UNCHANGED <<chain, blk, nTag, nTx, nRev, nL1, nPc, nGw, nRecv, nTick, pc, gw, orph, reorg, notify, tee, slot, sub, got, open, req>>
 
 (* the poller: AdvanceTo(height+1); a full block opens a new round at height+1, a delta appends
    to the current round; what ApplyUpdate returns is published *)
@@ -325,28 +339,28 @@ PcFull(withTx) ==
   /\ nTx' = IF withTx THEN nTx + 1 ELSE nTx
   /\ nPc' = nPc + 1 /\ SendOn("p", pc')
   /\ act' = [name |-> "PcFull", num |-> pc'.num, rid |-> pc'.rid, txs |-> pc'.txs] /\ res' = [kind |-> "ok"]
-  /\ UNCHANGED <<chain, blk, nTag, nRev, nL1, nGw, nRecv, nTick, l1, gw, orph, reorg, notify, sub, got, open, req>>
+  /\ UNCHANGED <<chain, blk, nTag, nRev, nL1, nGw, nRecv, nTick, l1, l1pend, gw, orph, reorg, notify, sub, got, open, req>>
 
 PcDelta ==
   /\ Free /\ EnvOK /\ nPc < MaxPc /\ nTx < MaxTx /\ PcVisible /\ Len(pc.txs) < 2
   /\ pc' = [pc EXCEPT !.txs = Append(@, nTx + 1)]
   /\ nTx' = nTx + 1 /\ nPc' = nPc + 1 /\ SendOn("p", pc')
   /\ act' = [name |-> "PcDelta", num |-> pc.num, rid |-> pc.rid, txs |-> <<nTx + 1>>, base |-> Len(pc.txs)] /\ res' = [kind |-> "ok"]
-  /\ UNCHANGED <<chain, blk, nTag, nRev, nL1, nGw, nRecv, nTick, l1, gw, orph, reorg, notify, sub, got, open, req>>
+  /\ UNCHANGED <<chain, blk, nTag, nRev, nL1, nGw, nRecv, nTick, l1, l1pend, gw, orph, reorg, notify, sub, got, open, req>>
 
 (* the gateway learns of a transaction (RECEIVED), then schedules it (CANDIDATE) *)
 Gw(t) ==
   /\ Free /\ EnvOK /\ nGw < MaxGw /\ gw[t] < CANDIDATE
   /\ gw' = [gw EXCEPT ![t] = @ + 1] /\ nGw' = nGw + 1
   /\ act' = [name |-> "Gw", t |-> t, st |-> gw[t] + 1] /\ res' = [kind |-> "ok"]
-  /\ UNCHANGED <<chain, blk, nTag, nTx, nRev, nL1, nPc, nRecv, nTick, l1, pc, orph, reorg, notify, tee, slot, sub, got, open, req>>
+  /\ UNCHANGED <<chain, blk, nTag, nTx, nRev, nL1, nPc, nRecv, nTick, l1, l1pend, pc, orph, reorg, notify, tee, slot, sub, got, open, req>>
 
 (* the received-transaction feed (mempool / gateway submission): sent straight on the handler's feed *)
 Recv(t) ==
   /\ Free /\ EnvOK /\ nRecv < MaxRecv /\ Ver >= 9
   /\ slot' = Into(slot, "x", t) /\ nRecv' = nRecv + 1 /\ UNCHANGED nTick
   /\ act' = [name |-> "Recv", t |-> t] /\ res' = [kind |-> "ok"]
-  /\ UNCHANGED <<chain, blk, nTag, nTx, nRev, nL1, nPc, nGw, l1, pc, gw, orph, reorg, notify, tee, sub, got, open, req>>
+  /\ UNCHANGED <<chain, blk, nTag, nTx, nRev, nL1, nPc, nGw, l1, l1pend, pc, gw, orph, reorg, notify, tee, sub, got, open, req>>
 
 -----------------------------------------------------------------------------
 (* ---- requests *)
@@ -487,7 +501,7 @@ Tick ==
   /\ sub' = [s \in Subs |-> IF Ticking(s) THEN Ticked(sub[s]) ELSE sub[s]]
   /\ nTick' = nTick + 1
   /\ act' = [name |-> "Tick"] /\ res' = [kind |-> "ok"]
-  /\ UNCHANGED <<chain, blk, nTag, nTx, nRev, nL1, nPc, nGw, nRecv, l1, pc, gw, orph, reorg, notify, tee, slot, got, open, req>>
+  /\ UNCHANGED <<chain, blk, nTag, nTx, nRev, nL1, nPc, nGw, nRecv, l1, l1pend, pc, gw, orph, reorg, notify, tee, slot, got, open, req>>
 
 TickTimeout ==
   /\ \E s \in Subs : Ticking(s)
@@ -527,6 +541,7 @@ Next ==
   \/ \E c \in {"empty", "fresh", "pc", "orph"} : Store(c)
   \/ Revert
   \/ \E n \in 0..(MaxLen - 1) : SetL1(n)
+  \/ L1Write
   \/ \E b \in BOOLEAN : PcFull(b)
   \/ PcDelta
   \/ \E t \in Txs : Gw(t)
@@ -689,6 +704,11 @@ TxsComplete ==
 StatusL1Last ==
   \A s \in Subs : (Active(s) /\ sub[s].kind = "status") =>
      LET st == StatusesOf(got[s], 1) IN \A i \in 1..(Len(st) - 1) : st[i] # L1F
+
+(* once everything is consumed, a transaction at or below the L1 head has been reported ACCEPTED_ON_L1
+   (refuted with FixL1Order = FALSE: the event was handled before the database write) *)
+L1Reported ==
+  \A s \in Subs : (sub[s].kind = "status" /\ Settled(s) /\ StatusOf(sub[s].tx) = L1F /\ nRev = 0) => sub[s].lastst = L1F
 
 (* the status a client was told last is the status the node would answer now (refuted for the
    code as it is even under the three assumptions: no re-evaluation after a reorg notice) *)
